@@ -21,7 +21,9 @@ CLAUSES = {
     "C09": ["C09_bag", "C09_props", "C09_extra"],
     "C10": ["R2_equal", "R2_exposed", "C01_settles"],
     "C11": ["C01_value", "R2_equal", "C11_range", "C01_settles"],
+    "C12": ["R2_equal", "R2_exposed", "C01_settles", "C01_value", "C02_bag", "C06_entity", "C06_condition", "C06_enable"],
     "C13": ["R2_equal", "R2_exposed", "C01_value", "C02_bag", "C03_value", "C13_reserved", "C13_fresh", "C01_settles"],
+    "C14": ["C14_rejected", "C14_message", "C14_names", "C14_exit", "C14_no_blueprint"],
     "C15": ["R2_equal", "R2_exposed", "C01_value", "C03_value", "C06_entity", "C06_condition", "C06_enable", "C09_bag", "C09_extra", "C01_settles"],
     "C16": ["R2_equal", "R2_exposed", "C01_value", "C03_value", "C06_entity", "C06_condition", "C06_enable", "C09_bag", "C09_extra", "C01_settles"],
     "C20": ["C20_exposed", "C20_label", "C20_input", "C01_value", "C02_bag"],
@@ -404,6 +406,151 @@ def fl_check(ctx, prefix):
             it["vclause"] = "C03_value"
         return it
     run_refine(ctx, sel, {"DomCap": 300 if ctx.tier == "quick" else 3000}, item_fn=item, variants=[("", {}), ("#twin", {"__twin": True})], batch_size=6)
+
+
+@prop("C12")
+def c12(ctx):
+    progs = with_ids(gen.generate("GenPair"), "pa")
+    for p in progs:   # the id must distinguish the P-side and Q-side records of one interleaving
+        p["id"] = gen.prog_id("pa", {"src": p["src"], "src2": p["src2"]})
+    ctx.cov["corpus_size"] = len(progs)
+    sel = pick(progs, 120, ctx.seed, always=SMOKE.get("C12", ())) if ctx.tier == "quick" else progs
+    ctx.cov["exhaustive"] = ctx.tier != "quick"
+    ctx.cov["rule"] = ("pairs (P, Q) from GenPair (3 x 5 small programs over disjoint variable names that reuse the same explicit signals and "
+                       "neighbouring tiles) x ALL order-preserving interleavings; the build of the interleaved program is run in lock-step with "
+                       "the build of P alone (and of Q alone) from every valuation of the inputs of BOTH programs; P's (Q's) exported values "
+                       "must be equal in both builds, i.e. independent of the other program's inputs")
+    ctx.assumptions = ASSUME_BASE
+
+    def item(p, rs):
+        return twin_item(p, rs, dom=p["dom"])
+    run_refine(ctx, sel, {"DomCap": 700}, item_fn=item, variants=[("", {}), ("#twin", {"__twin": True})], batch_size=20)
+
+
+def run_cli(entry, args, cwd, timeout=240, hashseed="0"):
+    """Run the real command line as a subprocess (entry: 'module' = python -m dsl_compiler, 'script' = compile.py,
+    'factompile' = the console entry point function)."""
+    import subprocess
+    from common import REPO, VENV_PY
+    env = dict(os.environ, PYTHONPATH=REPO, PYTHONHASHSEED=str(hashseed), FACTOMPILER_VERIF="1",
+               FACTOMPILER_VERIF_LAYOUT=json.dumps({"det": True, "seed": 7, "dtime": 0.5, "workers": 1}))
+    env.pop("FACTOMPILER_VERIF_TRACE", None)
+    if entry == "module":
+        cmd = [VENV_PY, "-m", "dsl_compiler"] + args
+    elif entry == "script":
+        cmd = [VENV_PY, os.path.join(REPO, "compile.py")] + args
+    else:
+        cmd = [VENV_PY, "-c", "import sys; from dsl_compiler.cli import main; sys.argv[0] = 'factompile'; main()"] + args
+    try:
+        r = subprocess.run(cmd, cwd=cwd, env=env, capture_output=True, text=True, timeout=timeout)
+        return r.returncode, r.stdout, r.stderr
+    except subprocess.TimeoutExpired:
+        return 124, "", "timeout"
+
+
+def classify_stdout(text):
+    """What does the text look like? 'empty', 'blueprint' (decodable blueprint string), 'json' (blueprint JSON), 'other'."""
+    import base64
+    import zlib
+    t = text.strip()
+    if not t:
+        return "empty"
+    for line in [t] + t.splitlines():
+        line = line.strip()
+        if line.startswith("{"):
+            try:
+                d = json.loads(line)
+                if isinstance(d, dict) and ("blueprint" in d or "blueprint_book" in d):
+                    return "json"
+            except ValueError:
+                pass
+        if line.startswith("0") and len(line) > 20:
+            try:
+                d = json.loads(zlib.decompress(base64.b64decode(line[1:])))
+                if isinstance(d, dict) and "blueprint" in d:
+                    return "blueprint"
+            except Exception:
+                pass
+    return "other"
+
+
+@prop("C14")
+def c14(ctx):
+    import refine as rf
+    from common import run_tlc, tagged_tuples, tlc_errors, unq
+    from encode import enc
+    progs = gen.generate("GenIll", tag="v1")
+    for p in progs:
+        p["id"] = gen.prog_id("il", {"src": p["src"]})
+    ctx.cov["corpus_size"] = len(progs)
+    sel = pick(progs, 150, ctx.seed, always=SMOKE.get("C14", ())) if ctx.tier == "quick" else progs
+    ctx.cov["exhaustive"] = ctx.tier != "quick"
+    ctx.cov["rule"] = ("programs = GenIll: 40 ill-formed blocks covering the 20 documented static rules x 4 embedding contexts (top level, "
+                       "function body, loop body, loop inside a function) x 3 positions in a valid host; each replayed through the compiler's "
+                       "API, and one program per rule through the real command line (-i and file input, stdout and -o); TLC evaluates "
+                       "ill-formed => rejected with a non-empty error that names the offending identifier, exit status != 0, nothing that decodes "
+                       "to a blueprint on stdout or in the output file; non-trivial = distinct (rule, context, position) triples")
+    ctx.assumptions = ["every generated program violates the named rule by construction (GenIll.tla)",
+                       "'the message mentions the name' is a substring test done by the harness"]
+    res = compile_all([{"id": p["id"], "src": p["src"]} for p in sel], timeout=120)
+    recs = []
+    for p in sel:
+        r = res[p["id"]]
+        msg = (r.get("message") or "")
+        recs.append({"id": p["id"], "rule": p["grp"], "ctx": p["ctx"], "pos": p["pos"], "name": p["name"], "status": r.get("status", "crashed"),
+                     "message": msg[:300], "msg": bool(msg.strip()), "names": bool(p["name"]) and p["name"] in msg})
+    # the real command line for one program per rule (top level, middle position)
+    seen = set()
+    import tempfile
+    clidir = os.path.join(ctx.wd, "cli")
+    os.makedirs(clidir, exist_ok=True)
+    k = 0
+    for p in sel:
+        if p["ctx"] != "top" or p["pos"] != "middle" or p["grp"] in seen:
+            continue
+        seen.add(p["grp"])
+        k += 1
+        src_file = os.path.join(clidir, "ill%d.facto" % k)
+        with open(src_file, "w") as fh:
+            fh.write(p["src"])
+        out_file = os.path.join(clidir, "ill%d.out" % k)
+        mode = k % 3
+        if mode == 0:
+            code, so, se = run_cli("module", ["-i", p["src"]], clidir)
+        elif mode == 1:
+            code, so, se = run_cli("script", [src_file, "-o", out_file], clidir)
+        else:
+            code, so, se = run_cli("factompile", [src_file, "--json"], clidir)
+        outfile = os.path.exists(out_file) and classify_stdout(open(out_file).read()) in ("blueprint", "json")
+        msg = (se or "")[-600:]
+        recs.append({"id": p["id"] + "-cli", "rule": p["grp"], "ctx": "cli", "pos": "middle", "name": p["name"],
+                     "status": "rejected" if code != 0 else "ok", "message": msg[-300:], "msg": bool(msg.strip()),
+                     "names": bool(p["name"]) and p["name"] in (se or ""), "cli": {"exit": code, "stdout": classify_stdout(so), "outfile": bool(outfile)}})
+    ctx.add("evaluations", len(recs))
+    d = os.path.join(ctx.wd, "reject")
+    os.makedirs(d)
+    with open(os.path.join(d, "Data.tla"), "w") as fh:
+        fh.write("---- MODULE Data ----\nEXTENDS Integers\nClauses == %s\nRecs == <<\n %s\n>>\n====\n" % (enc(set(CLAUSES["C14"])), ",\n ".join(enc(r) for r in recs)))
+    with open(os.path.join(d, "T.tla"), "w") as fh:
+        fh.write("---- MODULE T ----\nEXTENDS Reject\n====\n")
+    with open(os.path.join(d, "T.cfg"), "w") as fh:
+        fh.write("INIT RInit\nNEXT RNext\n")
+    code, out, wall = run_tlc(d, "T", cfg="T.cfg", timeout=900)
+    chk = tagged_tuples(out, "CHECKED")
+    if tlc_errors(out) or not chk or int(chk[0][1]) != len(recs):
+        raise Machinery("Reject.tla did not evaluate all %d records: %s" % (len(recs), out[-1200:]))
+    ctx.add("states", len(recs))
+    ctx.add("transitions", len(recs))
+    ctx.add("traces_validated_against_impl", len(recs))
+    ctx.add("distinct_nontrivial", len({(r["rule"], r["ctx"], r["pos"]) for r in recs}))
+    ctx.cov["cli_invocations"] = len(seen)
+    ctx.cov["outcomes"] = {s: sum(1 for r in recs if r["status"] == s) for s in ("ok", "rejected", "crashed", "timeout")}
+    srcs = {p["id"]: p["src"] for p in sel}
+    for f in tagged_tuples(out, "FAIL"):
+        rid = unq(f[1])
+        ctx.violation(rid, unq(f[2]), ", ".join(f[3:]), {"src": srcs.get(rid.replace("-cli", "")), "item": {}, "module": "Reject"})
+    for r in recs[:3]:
+        ctx.sample({"src": srcs.get(r["id"].replace("-cli", "")), "rule": r["rule"], "ctx": r["ctx"], "status": r["status"], "message": r["message"][:160]})
 
 
 def design_mc(ctx, module, cfg):
